@@ -321,6 +321,13 @@ def gen_cases(rng, tier):
             x = secs + r.choice([0.0, 0.5, 0.25, 0.75, 0.125, 0.015625, 0.984375])
             inp = ["epochf", struct.pack(">d", float(x)).hex()]
         c = {"kind": "rt", "input": inp}
+        w2 = r.below(10)
+        if w2 < 2:
+            c["via"] = "replace"
+        elif w2 < 3:
+            c["via"] = "assign"
+        if r.chance(15):
+            c["ignore"] = r.choice([["_generated"], ["ts"], ["ts", "_generated"], ["_source"]])
         if r.chance(25):
             e = expected(inp)
             if e is not None and 2 <= e[0][0] <= 9998:
@@ -435,7 +442,15 @@ def run_real(case):
     gen = V.build(GEN_FIXED)
     try:
         value = build_input(inp)
-        rec = desc(ts=value, _generated=gen)
+        via = case.get("via", "ctor")
+        if via == "replace":
+            # the timestamp enters through _replace() of a record that had none (still a field of type datetime)
+            rec = desc(ts=None, _generated=gen)._replace(ts=value)
+        elif via == "assign":
+            rec = desc(_generated=gen)
+            rec.ts = value
+        else:
+            rec = desc(ts=value, _generated=gen)
     except Exception as e:
         return {"constructed": _err(e)}
     ts = rec.ts
@@ -476,6 +491,11 @@ def run_real(case):
                 os.environ["FLOW_RECORD_TZ"] = old_env
     # storage round trips through the public entry points
     d = tempfile.mkdtemp(prefix="frv-c13-")
+    import flow.record.base as _B
+    _saved_ignore = set(_B.IGNORE_FIELDS_FOR_COMPARISON)
+    if case.get("ignore"):
+        # a comparison-ignore configuration is in force while the record is stored: it concerns == and hash() only
+        _B.set_ignored_fields_for_comparison(list(case["ignore"]))
     try:
         for fmt, url in _urls(d).items():
             try:
@@ -498,6 +518,7 @@ def run_real(case):
             except Exception as e:
                 obs[fmt] = _err(e)
     finally:
+        _B.set_ignored_fields_for_comparison(_saved_ignore)
         shutil.rmtree(d, ignore_errors=True)
     return obs
 
